@@ -59,6 +59,7 @@ type StaticSpec struct {
 	CacheControl bool
 	Logging      bool
 	UseDirectory bool // pass StaticOptions.Directory instead of FileSystem
+	DefaultDir   bool // pass neither: the default directory "public" below the working directory
 }
 
 // Setup is the whole set-up program of one flamego instance.
